@@ -23,7 +23,7 @@ from vmon.props.c11 import solo_result
 
 LEVEL = "exploration"
 SHARDS = {"quick": 16, "thorough": 16}
-MUST = ["spelling.styles", "trivia.comment", "trivia.pi", "trivia.whitespace", "trivia.paths_probed", "special_names.loads", "layout.one-line", "layout.crlf", "layout.blank-lines", "layout.tabs", "layout.no-indent", "history.runs", "history.failed_prior_loads",
+MUST = ["spelling.styles", "trivia.comment", "trivia.pi", "trivia.whitespace", "trivia.paths_probed", "special_names.loads", "load.forms_rotated", "layout.one-line", "layout.crlf", "layout.blank-lines", "layout.tabs", "layout.no-indent", "history.runs", "history.failed_prior_loads",
         "history.style_changes", "baseline.fresh_process", "path.ContextCalibratorList", "path.EntryList", "path.ComparisonList"]
 RULE = ("case = (document IR, rendering = namespace convention x trivia placement, history of prior loads); fingerprint "
         "(canonical written XML + decode of steered packets) must equal the baseline. Renderings: 15 namespace conventions; inter-element whitespace layouts "
@@ -66,8 +66,43 @@ def fingerprint(defn, doc, packets):
                                 dec)).encode()).hexdigest()
 
 
+_FORM = {"n": 0, "dir": None}
+
+
+def load_any_form(xml, prefix):
+    """the document handed to from_xtce in rotating forms: in-memory binary stream, path as str, pathlib.Path, open binary
+    file object; (prefix xtce only) also through the package-level load_xml(path)"""
+    import io
+    import pathlib
+    import tempfile
+    from space_packet_parser.xtce.definitions import XtcePacketDefinition
+    _FORM["n"] += 1
+    form = _FORM["n"] % 6
+    if form in (0, 1):
+        return load_definition(xml, prefix)
+    if _FORM["dir"] is None:
+        _FORM["dir"] = tempfile.mkdtemp(prefix="vmon-c16-", dir=os.environ.get("VMON_SCRATCH"))
+    path = os.path.join(_FORM["dir"], "doc.xml")
+    with open(path, "wb") as f:
+        f.write(xml)
+    try:
+        if form == 2:
+            return XtcePacketDefinition.from_xtce(path, xtce_ns_prefix=prefix)
+        if form == 3:
+            return XtcePacketDefinition.from_xtce(pathlib.Path(path), xtce_ns_prefix=prefix)
+        if form == 4:
+            with open(path, "rb") as f:
+                return XtcePacketDefinition.from_xtce(f, xtce_ns_prefix=prefix)
+        if prefix == "xtce":
+            import space_packet_parser
+            return space_packet_parser.load_xml(path)
+        return XtcePacketDefinition.from_xtce(io.BytesIO(xml), xtce_ns_prefix=prefix)
+    finally:
+        os.unlink(path)
+
+
 def load_fp(xml, style, doc, packets):
-    st = monitored(load_definition, xml, prefix_of(style))
+    st = monitored(load_any_form, xml, prefix_of(style))
     if st.exc is not None:
         return ("load-error", type(st.exc).__name__, str(st.exc)[:200])
     f = monitored(fingerprint, st.value, doc, packets)
@@ -235,6 +270,10 @@ def run(ctx):
             ctx.sample({"doc": i, "parent_paths_probed": len(paths), "example_paths": [p.replace('/SpaceSystem/TelemetryMetaData', '') for p in paths[:10]],
                         "baseline": base[1][:16]})
     special_names(ctx)
+    ctx.count("load.forms_rotated", _FORM["n"])
+    if _FORM["dir"] is not None:
+        import shutil
+        shutil.rmtree(_FORM["dir"], ignore_errors=True)
     ctx.count("trivia.paths_probed", len(probed_paths))
     ctx.count("namespace_class_states_seen", len(states))
     ctx.note("namespace class states seen: " + repr(sorted(states))[:600])
